@@ -146,4 +146,47 @@ theorem C11_get_available (c : Cfg) (p : Pair) (k : Key) (hq : Quiet p)
       obtain ⟨s, hs⟩ := h
       rcases Side.eq_or_other (firstSide p) s with e | e <;> subst e <;> simp_all
 
+/-- Whatever faults fire: a read that succeeds returns a value a replica held,
+namely the first replica's, or - when that one answered NOT_FOUND - the other
+one's; in the latter case, with the `local` replicator, the replica consulted
+first holds the value afterwards (a read never succeeds without its repair). -/
+theorem C11_get_sound (c : Cfg) (p : Pair) (k : Key) (v : Val) (h : (get c p k).2 = .ok v) :
+    p.holds (firstSide p) k v ∨
+    (saidNF p (firstSide p) k ∧ p.holds (firstSide p).other k v ∧
+      (c.toward (firstSide p) = .local → (get c p k).1.holds (firstSide p) k v)) := by
+  rcases get_ok_cases c p k v h with ⟨_, h1⟩ | ⟨h1, h2, h3, h4⟩
+  · exact Or.inl h1
+  · refine Or.inr ⟨h1, h3, fun hl => ?_⟩
+    unfold Pair.holds
+    rw [get_store]
+    simp [(firstNF_iff p k).2 h1, stage2Write, h2, h3, hl, h4 hl]
+
+/-- A read that fails with a code other than NOT_FOUND reports a call that did
+fail, with that call's code, under a replica's name: the first replica's `Get`
+under the first replica's name; the second replica's `Get` under the second
+replica's name; and the repair write into the first replica under the name of
+the second replica (the source of the replication) followed by "Replication failed". -/
+theorem C11_get_error_named (c : Cfg) (p : Pair) (k : Key) (e : Err)
+    (h : (get c p k).2 = .error e) (hne : e.code ≠ nf) :
+    (e = ⟨e.code, [.backend (firstSide p)], .fault (firstSide p) .get ((p.rep (firstSide p)).cnt .get)⟩ ∧
+      (p.rep (firstSide p)).faultAt .get = some e.code) ∨
+    (saidNF p (firstSide p) k ∧
+      e = ⟨e.code, [.backend (firstSide p).other], .fault (firstSide p).other .get ((p.rep (firstSide p).other).cnt .get)⟩ ∧
+      (p.rep (firstSide p).other).faultAt .get = some e.code) ∨
+    (saidNF p (firstSide p) k ∧ c.toward (firstSide p) = .local ∧
+      e = ⟨e.code, [.backend (firstSide p).other, .repl], .fault (firstSide p) .put ((p.rep (firstSide p)).cnt .put)⟩ ∧
+      (p.rep (firstSide p)).faultAt .put = some e.code ∧
+      (p.rep (firstSide p).other).faultAt .get = none ∧ (p.rep (firstSide p).other).store k ≠ none) :=
+  get_error_cases c p k e h hne
+
+/-- A read answers NOT_FOUND only if both replicas answered NOT_FOUND (provided
+the repair write does not itself fail with code NOT_FOUND); the error is then
+passed through unwrapped. In particular a failure with another code of either
+replica's `Get` is never turned into NOT_FOUND. -/
+theorem C11_get_not_found (c : Cfg) (p : Pair) (k : Key) (e : Err)
+    (h : (get c p k).2 = .error e) (hc : e.code = nf)
+    (hput : (p.rep (firstSide p)).faultAt .put ≠ some nf) :
+    saidNF p (firstSide p) k ∧ saidNF p (firstSide p).other k ∧ e.tags = [] :=
+  get_nf_cases c p k e h hc hput
+
 end BB.C11
